@@ -17,6 +17,8 @@ import (
 	cidlink "github.com/ipld/go-ipld-prime/linking/cid"
 	"github.com/ipld/go-ipld-prime/multicodec"
 	"github.com/ipld/go-ipld-prime/node/basicnode"
+	"github.com/ipld/go-ipld-prime/node/bindnode"
+	"github.com/ipld/go-ipld-prime/schema"
 	"github.com/ipld/go-ipld-prime/storage/fsstore"
 	"github.com/ipld/go-ipld-prime/storage/memstore"
 
@@ -40,6 +42,9 @@ type LoStep struct {
 }
 type LoCase struct {
 	Steps []LoStep `json:"steps"`
+	// set on a witness so that the isolated reproduction uses the same concretisation
+	Profile *int   `json:"profile,omitempty"`
+	Backend string `json:"backend,omitempty"`
 }
 
 type protoSpec struct {
@@ -63,10 +68,13 @@ var linkProtoCatalog = []protoSpec{
 	{"raw/identity", cid.Prefix{Version: 1, Codec: 0x55, MhType: 0x00, MhLength: -1}, false, true, false},
 	{"dag-cbor/dbl-sha2-256", cid.Prefix{Version: 1, Codec: 0x71, MhType: 0x56, MhLength: -1}, true, false, false},
 	{"dag-json/sha2-256", cid.Prefix{Version: 1, Codec: 0x0129, MhType: 0x12, MhLength: -1}, true, false, false},
+	// an identity prototype carrying an explicit length, as Link.Prototype() of an earlier (shorter) identity link does
+	{"dag-cbor/identity-len4", cid.Prefix{Version: 1, Codec: 0x71, MhType: 0x00, MhLength: 4}, true, false, false},
+	{"raw/identity-len2", cid.Prefix{Version: 1, Codec: 0x55, MhType: 0x00, MhLength: 2}, false, true, false},
 }
 
 // NLinkProfiles is the number of (prototype pair, value pair) profiles.
-const NLinkProfiles = 12
+const NLinkProfiles = 14
 
 func loValue(profile, v int, ps protoSpec) model.Value {
 	sv := func(k string, n int) model.Value {
@@ -203,6 +211,14 @@ func ReplayLinkOps(cs *LoCase, profile int, backend string, scratch string) (*ru
 			}
 			return conc.BuildImpl("basic-typed", val)
 		default:
+			if ps.sorting && val.K == "map" && allScalar(val) {
+				// a schema-typed node (struct with tuple representation), handed over at type level:
+				// its data-model value is the same map, so its link must be the same
+				// (only where the keys are usable as inferred Go field names)
+				if n, err := typedStruct(conc, val); err == nil {
+					return n, nil
+				}
+			}
 			if ps.sorting {
 				return conc.BuildImpl("foreign", reverseOrder(val))
 			}
@@ -381,4 +397,46 @@ func sortedEqual(a, b model.Value) bool {
 		return true
 	}
 	return bytes.Equal(model.Bytes(a.A), model.Bytes(b.A))
+}
+
+func allScalar(v model.Value) bool {
+	for _, c := range v.Vs {
+		if c.K == "map" || c.K == "list" || c.K == "null" {
+			return false
+		}
+	}
+	return len(v.Vs) > 0
+}
+
+// typedStruct builds v (a map of scalars) as a bindnode struct whose representation is a tuple.
+func typedStruct(c model.Conc, v model.Value) (datamodel.Node, error) {
+	ts := new(schema.TypeSystem)
+	ts.Init()
+	ts.Accumulate(schema.SpawnBool("Bool"))
+	ts.Accumulate(schema.SpawnInt("Int"))
+	ts.Accumulate(schema.SpawnFloat("Float"))
+	ts.Accumulate(schema.SpawnString("String"))
+	ts.Accumulate(schema.SpawnBytes("Bytes"))
+	ts.Accumulate(schema.SpawnLink("Link"))
+	tn := map[string]string{"bool": "Bool", "int": "Int", "float": "Float", "string": "String", "bytes": "Bytes", "link": "Link"}
+	var fields []schema.StructField
+	for i := range v.Vs {
+		fields = append(fields, schema.SpawnStructField(c.Key(v.Ks[i]), tn[v.Vs[i].K], false, false))
+	}
+	ts.Accumulate(schema.SpawnStruct("T", fields, schema.SpawnStructRepresentationTuple()))
+	if errs := ts.ValidateGraph(); len(errs) > 0 {
+		return nil, fmt.Errorf("typedStruct: %v", errs)
+	}
+	var n datamodel.Node
+	var err error
+	if p := model.Safe(func() {
+		nb := bindnode.Prototype(nil, ts.TypeByName("T")).NewBuilder()
+		err = c.BuildInto(nb, v)
+		if err == nil {
+			n = nb.Build()
+		}
+	}); p != nil {
+		return nil, fmt.Errorf("typedStruct: panic %v", p)
+	}
+	return n, err
 }
